@@ -49,6 +49,8 @@ def kind_of(name):
 def molecules(ctx, kind, n):
     rng = ctx.rng
     out = list(G.FIXED_GAS if kind == 'gas' else G.FIXED_SURFACE + G.FIXED_GAS[:12])
+    if ctx.thorough() and kind == 'gas':
+        out.append('C' * 100)       # 2 400 candidates of the sp3-carbon pattern (302 atoms): a candidate cap below that shows
     for _ in range(n):
         out.append(G.gen_smiles(rng, kind, rng.choice([3, 5, 8, 12] + ([18, 24] if ctx.thorough() else []))))
     for _ in range(max(2, n // 12)):
